@@ -104,6 +104,19 @@ def run(ctx):
             for ff in fails:
                 ctx.violation('decoder crashed on damaged file', {'line': (ff[0] or '')[:20000], 'stderr': ff[1], 'kind': 'sanitizer'})
             spec = oracle_dec(orc, oc, blobs) if oc else None
+            # the same damaged files on a decoder that was used before: the handle first decodes the undamaged file (all or part
+            # of it), is re-initialised without lzma_end, and then gets the damaged file; nothing may be carried over
+            if k <= 4:
+                sel = [j for j, (b_, kd, ps) in enumerate(faults) if fmt != 'xz' or ps < 24 or ps >= len(f) - 24 or j % 7 == fi % 7]
+                himpl, hf = impl_dec(drv, k, fl, 16, lambda i: 7 * i + fi, [blobs[j] for j in sel], prior=f)
+                for ff in hf:
+                    ctx.violation('decoder crashed on damaged file (reused handle)', {'line': (ff[0] or '')[:20000], 'stderr': ff[1], 'kind': 'sanitizer'})
+                for j, hr in zip(sel, himpl):
+                    if hr is None or impl[j] is None: continue
+                    n_eval += 1
+                    if (hr[0], hr[1] if k != 1 else 0, hr[4]) != (impl[j][0], impl[j][1] if k != 1 else 0, impl[j][4]):   # threaded: input position at an error depends on timing
+                        viol.append(dict(fmt=fmt, decoder=k, flags=fl, fault=faults[j][1] + ' on a re-initialised handle', pos=faults[j][2], file=blobs[j].hex(), original=f.hex(), ret=hr[0],
+                                         why='a decoder re-initialised after decoding the undamaged file answers %d (%d bytes in, %d out) where a fresh decoder answers %d (%d in, %d out)' % (hr[0], hr[1], len(hr[4]), impl[j][0], impl[j][1], len(impl[j][4]))))
             for j, ((blob, kind, pos), r) in enumerate(zip(faults, impl)):
                 if r is None: continue
                 n_eval += 1
